@@ -20,6 +20,7 @@ import (
 	"github.com/xuperchain/xupercore/bcs/ledger/xledger/state/utxo/txhash"
 	txn "github.com/xuperchain/xupercore/bcs/ledger/xledger/tx"
 	pb "github.com/xuperchain/xupercore/bcs/ledger/xledger/xldgpb"
+	"github.com/xuperchain/xupercore/kernel/engines/xuperos/miner"
 	kledger "github.com/xuperchain/xupercore/kernel/ledger"
 	"github.com/xuperchain/xupercore/protos"
 
@@ -397,7 +398,15 @@ func (s *xsim) step(op fx.Ev) (string, fx.Ev, error) {
 		extra["err"] = err.Error()
 		return "other", extra, nil
 	case "mkblock":
-		blk, err := s.build(op.Int("p"), strs(op["txs"]))
+		var blk *pb.InternalBlock
+		var err error
+		if mined, _ := op["mined"].(bool); mined {
+			var names []interface{}
+			blk, names, err = s.pack()
+			extra["txs"] = names
+		} else {
+			blk, err = s.build(op.Int("p"), strs(op["txs"]))
+		}
 		if err != nil {
 			return "", nil, err
 		}
@@ -465,22 +474,40 @@ func (s *xsim) step(op fx.Ev) (string, fx.Ev, error) {
 	return "", nil, fmt.Errorf("unknown op %q", op.Str("op"))
 }
 
-// expand turns a generated "mine" into the two recorded operations: the block is packed from the pool in the
-// pool's own order (GetUnconfirmedTx; recorded, not chosen) on the pointer, then played for the miner.
+// expand turns a generated "mine" into the two recorded operations: the block is packed by the engine's own
+// Miner.packBlock (award from the genesis schedule, timer transaction, the pool in the pool's own order under the
+// size limit; recorded, not chosen) on the pointer, then played for the miner.
 func (s *xsim) expand(op fx.Ev) ([]fx.Ev, error) {
 	if op.Str("op") != "mine" {
 		return []fx.Ev{op}, nil
 	}
-	pending, err := s.node.State.GetUnconfirmedTx(false)
+	p := s.abs(s.node.State.GetLatestBlockid())
+	return []fx.Ev{{"op": "mkblock", "p": p, "mined": true}, {"op": "pfm", "b": s.n + 1}}, nil
+}
+
+// pack calls the real packBlock of the engine's miner for the next height of the pointer's chain.
+func (s *xsim) pack() (*pb.InternalBlock, []interface{}, error) {
+	m := miner.NewMiner(s.node.Ctx)
+	ph, err := s.node.Ledger.QueryBlockHeader(s.node.State.GetLatestBlockid())
 	if err != nil {
-		return nil, err
+		return nil, nil, err
+	}
+	blk, err := m.PackBlockForVerif(s.node.Ctx, ph.Height+1, time.Unix(0, int64(s.n+1)), nil)
+	if err != nil {
+		return nil, nil, err
 	}
 	names := []interface{}{}
-	for _, t := range pending {
+	for _, t := range blk.Transactions {
+		if t.Coinbase {
+			s.names[hex.EncodeToString(t.Txid)] = "aw" + strconv.Itoa(s.n+1)
+			continue
+		}
+		if t.Autogen {
+			return nil, nil, fmt.Errorf("unexpected timer transaction in a packed block")
+		}
 		names = append(names, s.txName(t.Txid))
 	}
-	p := s.abs(s.node.State.GetLatestBlockid())
-	return []fx.Ev{{"op": "mkblock", "p": p, "txs": names, "mined": true}, {"op": "pfm", "b": s.n + 1}}, nil
+	return blk, names, nil
 }
 
 // cuts reopens a node on the image after every prefix of the storage writes [a, b) the last operation issued
@@ -523,6 +550,54 @@ func (s *xsim) cuts(base string, a, b int) ([]fx.Ev, error) {
 		out = append(out, c)
 		nd.Drop()
 	}
+	return out, nil
+}
+
+// replica builds a node that never saw the pool: it confirms the chain of abstract block b in order, walks to it
+// and is projected; the block's own validity checks (VerifyBlock, award amount) are recorded too (C13).
+func (s *xsim) replica(b int) (fx.Ev, error) {
+	rname := s.name + "rep"
+	nd, err := fx.NewNode(rname, s.genesis)
+	if err != nil {
+		return nil, err
+	}
+	defer nd.Drop()
+	chain := []int{}
+	for x := b; x > 1; x = s.abs(s.blocks[x].PreHash) {
+		chain = append([]int{x}, chain...)
+	}
+	out := fx.Ev{"blockvalid": true}
+	for _, x := range chain {
+		blk := proto.Clone(s.blocks[x]).(*pb.InternalBlock)
+		if x == b {
+			ok, _ := nd.Ledger.VerifyBlock(blk, "replica")
+			for i, tx := range blk.Transactions {
+				if !nd.Ledger.IsValidTx(i, tx, blk) {
+					ok = false
+				}
+			}
+			out["blockvalid"] = ok
+		}
+		if st := nd.Ledger.ConfirmBlock(blk, false); !st.Succ {
+			out["res"] = "confirm_fail"
+			out["obs"] = s.project(nd)
+			return out, nil
+		}
+	}
+	for len(s.recover) > 0 {
+		<-s.recover
+	}
+	if err := nd.State.Walk(s.blocks[b].Blockid, false); err != nil {
+		out["res"] = "fail"
+	} else {
+		out["res"] = "ok"
+		select {
+		case <-s.recover:
+		case <-time.After(20 * time.Second):
+			return nil, fmt.Errorf("recoverUnconfirmedTx did not signal completion (replica)")
+		}
+	}
+	out["obs"] = s.project(nd)
 	return out, nil
 }
 
@@ -657,6 +732,7 @@ func xstateReplay(args []string) error {
 	window := fs.Int("window", 0, "irreversible slide window of the chain")
 	reopen := fs.Bool("reopen", false, "also project a node reopened on a copy of the data after every step")
 	faultPct := fs.Int("faults", 0, "percentage of operations whose (j+1)-th storage write is made to fail (C05)")
+	replicaOn := fs.Bool("replica", false, "after every mined block replay its chain on a fresh replica (C13)")
 	cutsOn := fs.Bool("cuts", false, "reopen a node after every prefix of each operation's storage writes (crash points)")
 	scale := fs.String("scale", "1", "factor applied to every abstract amount (decimal)")
 	enc := fs.String("enc", "", "lz = outputs carry a leading zero byte")
@@ -678,7 +754,7 @@ func xstateReplay(args []string) error {
 		return err
 	}
 	defer tw.Close()
-	ops, ncuts, nfaults := 0, 0, 0
+	ops, ncuts, nfaults, nreplicas := 0, 0, 0, 0
 	for k, beh := range behs {
 		s, err := newXSim(fmt.Sprintf("X%d", k), cat, *window)
 		if err != nil {
@@ -773,6 +849,14 @@ func xstateReplay(args []string) error {
 						r.Drop()
 					}
 				}
+				if *replicaOn && op.Str("op") == "pfm" && res == "ok" {
+					rep, err := s.replica(op.Int("b"))
+					if err != nil {
+						return err
+					}
+					ev["replica"] = rep
+					nreplicas++
+				}
 				if *cutsOn {
 					b := fx.LogLen()
 					if op.Str("op") == "walk" {
@@ -814,6 +898,6 @@ func xstateReplay(args []string) error {
 		s.node.Drop()
 	}
 	tw.Emit(fx.Ev{"op": "reset", "tr": len(behs)}) // closing line: the last operation's cut is judged one step later
-	fmt.Printf("{\"behaviours\":%d,\"ops\":%d,\"cuts\":%d,\"faults\":%d}\n", len(behs), ops, ncuts, nfaults)
+	fmt.Printf("{\"behaviours\":%d,\"ops\":%d,\"cuts\":%d,\"faults\":%d,\"replicas\":%d}\n", len(behs), ops, ncuts, nfaults, nreplicas)
 	return nil
 }
